@@ -1,6 +1,7 @@
 import GixModel.Lemmas.C28
 import GixModel.Lemmas.C28Body
 import GixModel.Lemmas.C28Value
+import GixModel.Lemmas.C28Multi
 /-
 C28 — Config edits change only what was edited.  PROPERTY THEOREMS ONLY.
 
@@ -25,6 +26,11 @@ table; it is tied to the real `gix_config::File` by edit histories in the harnes
   `history_bodies_well_formed`, `history_comments_preserved`: on the bodies the parser produces
   (sequences of items) the span `key_and_value_range_by` computes IS the last item with the key,
   so no comment is ever touched — over ALL edit histories.
+* `MultiValueMut` (`raw_values_mut_by(..)?` then `set_all` / `set_at` / `delete` / `delete_all`):
+  `multi_scan_finds_the_items`, `multi_set_at_items`, `multi_delete_items`, `multi_set_all_view`,
+  `multi_delete_all_view` (ALL well-formed bodies: exactly the items with the key are rewritten /
+  dropped, comments and all other entries untouched), `multi_all_call_frame`, `multi_at_call_frame`
+  (ALL files: only sections filed under the looked-up name change, front matter and table never).
 Not proved (see `C28_full`): that the serialized result parses back to the edited view (the
 print-then-parse direction of the grammar); evaluated by the oracle on every step of every
 generated history (reparse by gitoxide and by git).
@@ -284,6 +290,170 @@ example : ∃ f, load [91, 97, 93, 10, 35, 99, 10, 107, 61, 118, 32, 59, 100, 10
       .newSection [98] none, .rename [97] none [99] none, .setExisting [99] none [109] [50]]).write =
       [91, 99, 93, 10, 35, 99, 10, 107, 61, 120, 32, 59, 100, 10, 109, 61, 50, 10, 91, 98, 93, 10] := by
   refine ⟨_, rfl, by decide +kernel⟩
+
+/-! ### `MultiValueMut`: `raw_values_mut_by(sec, sub, key)?` and `set_all` / `set_at` / `delete` / `delete_all` -/
+
+/-- The scan of `raw_values_mut_filter_inner` on a well-formed body finds exactly the items with the
+key (compared without case), in order, each with the position and length of its events. -/
+theorem multi_scan_finds_the_items (key : Bytes) (is : List Item) (hok : ∀ i ∈ is, i.ok = true) :
+    mvSpans key (flatten is) = spansOf key is 0 ∧ (mvSpans key (flatten is)).length = countKey key is := by
+  rw [mvSpans_items key is hok]
+  exact ⟨rfl, spansOf_length key is 0⟩
+
+example : mvSpans [107] [.name [75], .sep, .value [49], .newline [10], .name [106], .value [], .ws [9], .name [107],
+    .ws [32], .sep, .notDone [97], .newline [10], .done [98]] = [(0, 3), (7, 6)] := by decide +kernel
+
+/-- `set_at(j, v)` on a well-formed body: the item with rank `j` among those with the key becomes
+`key <separators> <escaped v>`; every other item is what it was. -/
+theorem multi_set_at_items (key value : Bytes) (is : List Item) (hok : ∀ i ∈ is, i.ok = true) (j : Nat)
+    (hj : j < countKey key is) :
+    ∃ pre k mid vals post it', is = pre ++ .kv k mid vals :: post ∧ eqIgnoreCase k key = true ∧ countKey key pre = j ∧
+      IsRewrite key value it' ∧ mvSetNth (flatten is) key value j = flatten (pre ++ it' :: post) :=
+  mvSetNth_items key value is hok j hj
+
+/-- `delete(j)` on a well-formed body: the item with rank `j` among those with the key goes,
+every other item stays (whitespace, newlines and comments around it included). -/
+theorem multi_delete_items (key : Bytes) (is : List Item) (hok : ∀ i ∈ is, i.ok = true) (j : Nat)
+    (hj : j < countKey key is) :
+    ∃ pre k mid vals post, is = pre ++ .kv k mid vals :: post ∧ eqIgnoreCase k key = true ∧ countKey key pre = j ∧
+      mvDeleteNth (flatten is) key j = flatten (pre ++ post) :=
+  mvDeleteNth_items key is hok j hj
+
+/-- `set_all(v)` on a well-formed body (ALL of them, any number of occurrences): the body stays
+well formed, its comments are untouched, and its entries are the old ones where exactly those with
+the key now carry the escaped `v` (which reads back as `v`, `written_value_reads_back`). -/
+theorem multi_set_all_view (h : Header) (key value : Bytes) (body : List Event) (hb : WFb body) :
+    WFb (mvSetAllBody key value (mvSpans key body).length 0 body) ∧
+    commentsOf (mvSetAllBody key value (mvSpans key body).length 0 body) = commentsOf body ∧
+    bodyEntries h (mvSetAllBody key value (mvSpans key body).length 0 body) none [] =
+      (bodyEntries h body none []).map (rewriteEntry h key value) :=
+  mvSetAll_view h key value body hb
+
+example : mvSetAllBody [107] [32, 120] 2 0 [.name [75], .sep, .value [49], .newline [10], .comment 35 [99], .newline [10],
+      .name [106], .value [], .newline [10], .name [107], .value []] =
+    [.name [107], .sep, .value [34, 32, 120, 34], .newline [10], .comment 35 [99], .newline [10],
+      .name [106], .value [], .newline [10], .name [107], .sep, .value [34, 32, 120, 34]] := by decide +kernel
+
+/-- `delete_all()` on a well-formed body: well formed again, same comments, and the entries are the
+old ones without those with the key. -/
+theorem multi_delete_all_view (h : Header) (key : Bytes) (body : List Event) (hb : WFb body) :
+    WFb (mvDeleteAllBody key (mvSpans key body).length body) ∧
+    commentsOf (mvDeleteAllBody key (mvSpans key body).length body) = commentsOf body ∧
+    bodyEntries h (mvDeleteAllBody key (mvSpans key body).length body) none [] =
+      (bodyEntries h body none []).filter (fun e => !eqIgnoreCase e.key key) :=
+  mvDeleteAll_view h key body hb
+
+example : mvDeleteAllBody [107] 2 [.name [75], .sep, .value [49], .newline [10], .comment 35 [99], .newline [10],
+      .name [106], .value [], .newline [10], .name [107], .value []] =
+    [.newline [10], .comment 35 [99], .newline [10], .name [106], .value [], .newline [10]] := by decide +kernel
+
+/-- `set_all` / `delete_all` on ALL files: the front matter and the lookup table are untouched; a
+section filed under the looked-up name gets its body rewritten by the body-level function above
+(once), every other section is exactly what it was. -/
+theorem multi_all_call_frame (f f' : FileS) (sec : Bytes) (sub : Option Bytes) (key : Bytes) :
+    (∀ value, applyM f (.mvSetAll sec sub key value) = .ok f' →
+      ∃ ids, idsBy f sec sub = .ok ids ∧ f'.front = f.front ∧ f'.reg = f.reg ∧
+        ∀ i, f'.sections[i]? = if i ∈ ids then (f.sections[i]?).map (fun s =>
+            { s with body := mvSetAllBody key value (mvSpans key s.body).length 0 s.body })
+          else f.sections[i]?) ∧
+    (applyM f (.mvDeleteAll sec sub key) = .ok f' →
+      ∃ ids, idsBy f sec sub = .ok ids ∧ f'.front = f.front ∧ f'.reg = f.reg ∧
+        ∀ i, f'.sections[i]? = if i ∈ ids then (f.sections[i]?).map (fun s =>
+            { s with body := mvDeleteAllBody key (mvSpans key s.body).length s.body })
+          else f.sections[i]?) := by
+  constructor
+  · intro value h
+    simp only [applyM] at h
+    split at h
+    · simp at h
+    · rename_i ids hids
+      split at h
+      · simp at h
+      · simp only [Outcome.ok.injEq] at h
+        subst h
+        obtain ⟨h1, h2, h3⟩ := foldl_modifySec (fun s =>
+          { s with body := mvSetAllBody key value (mvSpans key s.body).length 0 s.body }) ids f (idsBy_nodup hids).1
+        exact ⟨ids, hids, h1, h2, h3⟩
+  · intro h
+    simp only [applyM] at h
+    split at h
+    · simp at h
+    · rename_i ids hids
+      split at h
+      · simp at h
+      · simp only [Outcome.ok.injEq] at h
+        subst h
+        obtain ⟨h1, h2, h3⟩ := foldl_modifySec (fun s =>
+          { s with body := mvDeleteAllBody key (mvSpans key s.body).length s.body }) ids f (idsBy_nodup hids).1
+        exact ⟨ids, hids, h1, h2, h3⟩
+
+/-- `set_at` / `delete` on ALL files: exactly ONE section, filed under the looked-up name, has its
+body changed by the body-level function, with an index below the number of occurrences there. -/
+theorem multi_at_call_frame (f f' : FileS) (sec : Bytes) (sub : Option Bytes) (key : Bytes) (n : Nat) :
+    (∀ value, applyM f (.mvSetAt sec sub key n value) = .ok f' →
+      ∃ ids i j, idsBy f sec sub = .ok ids ∧ i ∈ ids ∧ j < (mvSpans key (bodyAt f i)).length ∧
+        f' = modifySec f i fun s => { s with body := mvSetNth s.body key value j }) ∧
+    (applyM f (.mvDelete sec sub key n) = .ok f' →
+      ∃ ids i j, idsBy f sec sub = .ok ids ∧ i ∈ ids ∧ j < (mvSpans key (bodyAt f i)).length ∧
+        f' = modifySec f i fun s => { s with body := mvDeleteNth s.body key j }) := by
+  have hloc : ∀ (l : List (Nat × Nat)) (m i j : Nat), locate l m = some (i, j) → (i, j) ∈ l.map (fun p => (p.1, j)) ∧
+      ∃ c, (i, c) ∈ l ∧ j < c := by
+    intro l
+    induction l with
+    | nil => intro m i j h; simp [locate] at h
+    | cons p l ih =>
+      intro m i j h
+      obtain ⟨i0, c0⟩ := p
+      simp only [locate] at h
+      split at h
+      · simp only [Option.some.injEq, Prod.mk.injEq] at h
+        obtain ⟨rfl, rfl⟩ := h
+        exact ⟨by simp, c0, by simp, by assumption⟩
+      · obtain ⟨h1, c, h2, h3⟩ := ih _ i j h
+        exact ⟨by simp only [List.map_cons, List.mem_cons]; exact Or.inr h1, c, by simp [h2], h3⟩
+  constructor
+  · intro value h
+    simp only [applyM] at h
+    split at h
+    · simp at h
+    · rename_i ids hids
+      split at h
+      · simp at h
+      · split at h
+        · rename_i i j hl
+          simp only [Outcome.ok.injEq] at h
+          obtain ⟨_, c, hc, hj⟩ := hloc _ _ i j hl
+          simp only [List.mem_map] at hc
+          obtain ⟨i', hi', heq⟩ := hc
+          simp only [Prod.mk.injEq] at heq
+          obtain ⟨rfl, rfl⟩ := heq
+          exact ⟨ids, i', j, hids, hi', hj, h.symm⟩
+        · simp at h
+  · intro h
+    simp only [applyM] at h
+    split at h
+    · simp at h
+    · rename_i ids hids
+      split at h
+      · simp at h
+      · split at h
+        · rename_i i j hl
+          simp only [Outcome.ok.injEq] at h
+          obtain ⟨_, c, hc, hj⟩ := hloc _ _ i j hl
+          simp only [List.mem_map] at hc
+          obtain ⟨i', hi', heq⟩ := hc
+          simp only [Prod.mk.injEq] at heq
+          obtain ⟨rfl, rfl⟩ := heq
+          exact ⟨ids, i', j, hids, hi', hj, h.symm⟩
+        · simp at h
+
+-- non-vacuity: two sections filed under `a`, one under `b`; `set_all` rewrites three values, `b` is untouched
+example : ∃ f f', load [91, 97, 93, 10, 107, 61, 49, 10, 91, 98, 93, 10, 107, 61, 53, 10, 91, 65, 93, 10, 107, 61, 50, 10,
+      75, 61, 51, 10] = some f ∧
+    applyM f (.mvSetAll [97] none [107] [120]) = .ok f' ∧
+    f'.write = [91, 97, 93, 10, 107, 61, 120, 10, 91, 98, 93, 10, 107, 61, 53, 10, 91, 65, 93, 10, 107, 61, 120, 10,
+      107, 61, 120, 10] := by
+  refine ⟨_, _, rfl, rfl, by decide +kernel⟩
 
 /-- The property in full (NOT proved): after any call that succeeds, serializing and re-parsing
 gives the view the call means, i.e. `view (load (write (apply f op))) = view (apply f op)`.
